@@ -1,4 +1,4 @@
-//go:build verif
+//go:build verif && !vsched
 
 // verif-worker: entry point of all checks; compiled into /repo's module by -overlay (nothing is written to /repo).
 package main
